@@ -32,7 +32,7 @@ META = {
 
 
 META['explanation'] += ' Rounds 4-5: ' + 'R4 absent/empty value decided by constant propagation over usage x position x composite usage; delegation by position decided for N<=3 children x L<=4 data positions. R9 (= C18.R2 restricted) no state in the validating modules.'
-META['technique'] += '; conditional constant propagation over the CFG on finite, complete input domains (DESIGN.md 10.4.1)'
+META['technique'] = META.get('technique', 'static analysis: AST/CFG rules over /repo source + shipped XML data') + '; conditional constant propagation over the CFG on finite, complete input domains (DESIGN.md 10.4.1)'
 
 FUNCS = ('segment_if.is_valid', 'composite_if.is_valid', 'element_if.is_valid', 'element_if._is_valid_code')
 
